@@ -23,7 +23,11 @@ func TestAcceptance(t *testing.T) {
 		cfg.DebugInfo = os.Getenv("PROBE_DI") != ""
 		m, _ := gen.Module(rt, cfg)
 		gen.SparseMetadataIDs(rt, m)
-		x := m.TextNoisy(gen.DrawNoise(rt))
+		nz := gen.DrawNoise(rt)
+		if os.Getenv("PROBE_ALIAS") != "" {
+			nz = gen.DrawNoiseWithAliases(rt)
+		}
+		x := m.TextNoisy(nz)
 		n++
 		r := llvmx.Accept(x)
 		if r.OK {
